@@ -12,8 +12,8 @@ from harness.checks import solvercommon as sc
 from harness.common import Check
 
 TIERS = {"quick": dict(plan={"ASSGN2": 10, "XMLISH": 6, "NUM": 5, "NULLABLE": 4, "CSVISH": 3, "LENGTHS": 0}, calls=6, timeout=40, per=1),
-         "thorough": dict(plan={"ASSGN2": 60, "ASSGN": 30, "XMLISH": 40, "NUM": 30, "NULLABLE": 20, "CSVISH": 20, "LENGTHS": 10, "AMBIG": 5},
-                          calls=20, timeout=150, per=3)}
+         "thorough": dict(plan={"ASSGN2": 30, "ASSGN": 15, "XMLISH": 20, "NUM": 15, "NULLABLE": 10, "CSVISH": 10, "LENGTHS": 6, "AMBIG": 4},
+                          calls=16, timeout=90, per=2)}
 PID = "C01"
 
 
